@@ -371,6 +371,7 @@ class ndarray:
     def argsort(self, *a, **k): return argsort(self)
     def all(self, axis=None): return all_(self, axis)
     def any(self, axis=None): return any_(self, axis)
+    def cumsum(self, axis=None, out=None): return cumsum(self, axis, out)
     def flatten(self): return ndarray(self.d.flatten(), _raw=True)
     def ravel(self): return ndarray(self.d.reshape(-1), _raw=True)
     def reshape(self, *s): return ndarray(self.d.reshape(*s), _raw=True)
@@ -454,6 +455,83 @@ def full(n, v, dtype=None):
     o = _np.empty(_shape(n), dtype=object)
     o.fill(_conv_elem(v))
     return ndarray(_norm(o), _raw=True)
+
+
+def ones(n, dtype=None):
+    if dtype in (int, _np.int64):
+        return ndarray(_np.ones(_shape(n), dtype=_np.int64), _raw=True)
+    o = _np.empty(_shape(n), dtype=object)
+    o.fill(Fr(1))
+    return ndarray(o, _raw=True)
+
+
+def ones_like(a):
+    d = _raw(a)
+    return ones(d.shape, int if d.dtype == _np.int64 else None)
+
+
+def full_like(a, v):
+    return full(_raw(a).shape, v)
+
+
+def clip(a, lo, hi):
+    return _ew1(lambda v: core.smin(core.smax(v, lo), hi), a)
+
+
+def sign(a):
+    def f(v):
+        if isinstance(v, S):
+            return core.ite(v > 0, Fr(1), core.ite(v < 0, Fr(-1), Fr(0)))
+        return Fr((v > 0) - (v < 0))
+    return _ew1(f, a)
+
+
+def floor(a):
+    return _ew1(lambda v: Fr(core.sfloor(v)), a)
+
+
+def ceil(a):
+    return _ew1(lambda v: Fr(core.sceil(v)), a)
+
+
+def flip(a, axis=None):
+    return ndarray(_np.flip(_raw(a), axis=axis), _raw=True)
+
+
+def nonzero(a):
+    return where(ndarray(_raw(a), _raw=True) != 0)
+
+
+def count_nonzero(a):
+    return len(nonzero(a)[0])
+
+
+def vstack(seq):
+    arrs = [_obj(_raw(x)) for x in seq]
+    arrs = [x.reshape(1, -1) if x.ndim == 1 else x for x in arrs]
+    return ndarray(_norm(_np.concatenate(arrs, axis=0)), _raw=True)
+
+
+def stack(seq, axis=0):
+    arrs = [_obj(_raw(x)) for x in seq]
+    return ndarray(_norm(_np.stack(arrs, axis=axis)), _raw=True)
+
+
+def isnan(a):
+    return _ew1(lambda v: False, a)
+
+
+def isfinite(a):
+    return _ew1(lambda v: True, a)
+
+
+def copy(a):
+    return array(a)
+
+
+def linspace(a, b, num=50):
+    a, b = to_fr(a), to_fr(b)
+    return ndarray(_norm(_list1d([a + (b - a) * Fr(i, num - 1) for i in range(num)])), _raw=True)
 
 
 def zeros_like(a):
@@ -728,12 +806,16 @@ def median(a):
     return l[n // 2] if n % 2 else core.div(l[n // 2 - 1] + l[n // 2], 2)
 
 
-def cumsum(a):
-    out, r = [], 0
+def cumsum(a, axis=None, out=None):
+    res, r = [], 0
     for v in _flat(a):
         r = r + v
-        out.append(r)
-    return ndarray(_norm(_list1d(out)), _raw=True)
+        res.append(r)
+    arr = _norm(_list1d(res))
+    if out is not None:
+        out[:] = ndarray(arr, _raw=True)      # goes through __setitem__: logged as a write when `out` aliases an argument
+        return out
+    return ndarray(arr, _raw=True)
 
 
 def diff(a, axis=-1):
@@ -819,7 +901,9 @@ def unique(a):
 
 def where(c, *rest):
     if rest:
-        raise NotEncodable('3-argument where')
+        x, y = rest
+        return _wrap(_norm(_np.frompyfunc(lambda cc, u, v: core.ite(cc, u, v) if isinstance(cc, B) else (u if cc else v), 3, 1)(
+            _obj(_raw(c)), _exact(_raw(x)) if isinstance(x, (ndarray, list, tuple)) else _conv_elem(x), _exact(_raw(y)) if isinstance(y, (ndarray, list, tuple)) else _conv_elem(y))))
     d = _raw(c)
     m = _concretize_mask(_obj(d)) if d.dtype != bool else d
     return tuple(ndarray(x.astype(_np.int64), _raw=True) for x in _np.where(m))
@@ -982,7 +1066,8 @@ def make_numpy():
                      argsort=argsort, sort=sort, unique=unique, where=where, argwhere=argwhere,
                      searchsorted=searchsorted, concatenate=concatenate, hstack=hstack, column_stack=column_stack,
                      append=append, delete=delete, array_equal=array_equal, isclose=isclose, allclose=allclose, polyfit=polyfit, corrcoef=corrcoef,
-                     errstate=_Errstate).items():
+                     errstate=_Errstate, ones=ones, ones_like=ones_like, full_like=full_like, clip=clip, sign=sign, floor=floor, ceil=ceil, flip=flip,
+                     nonzero=nonzero, count_nonzero=count_nonzero, vstack=vstack, stack=stack, isnan=isnan, isfinite=isfinite, copy=copy, linspace=linspace).items():
         setattr(m, k, v)
     m.nan = None
     m.float64 = float
